@@ -6,6 +6,10 @@
 //	  retry [extra=<ns>]                                      -> <resp> t=<ns> | noretry
 //	  at <ns> preq <src> <amount> <n> <goroutines> [rates=<…>] -> 200=<a> 429=<b> 500=<c>
 //	      n requests of one source issued from g goroutines at one frozen instant (order-free counts; not with solo=1)
+//	  park-reject                                             -> ok    (not with solo=1)
+//	      the next request that is refused parks inside the limiter's ErrorHandler, i.e. after consumeRates returned the
+//	      error and before the real RateErrHandler reads it; that request answers `parked`
+//	  unpark                                                  -> <resp of the parked request> | noparked
 //	cfg set <rates>                                 bare TokenBucketSet
 //	  at <ns> consume <amount>   -> ok | delay <ns> | err
 //	  at <ns> update <rates>     -> ok
@@ -78,12 +82,42 @@ type last struct {
 	delay  int64
 }
 
+type parkedReq struct {
+	w    *httptest.ResponseRecorder
+	done chan struct{}
+	l    last
+}
+
 type rateH struct {
 	cfgRates string
 	cap      int
 	tl       *ratelimit.TokenLimiter
 	solo     map[string]*ratelimit.TokenLimiter
 	last     *last
+	pk       *parker
+	parked   *parkedReq
+}
+
+// parker is the ErrorHandler given to the shared limiter: the repo's own RateErrHandler, optionally held back
+// between "consumeRates returned the error" and "the handler reads it".
+type parker struct {
+	mu      sync.Mutex
+	armed   bool
+	entered chan struct{}
+	release chan struct{}
+	real    ratelimit.RateErrHandler
+}
+
+func (p *parker) ServeHTTP(w http.ResponseWriter, req *http.Request, err error) {
+	p.mu.Lock()
+	park := p.armed
+	p.armed = false
+	p.mu.Unlock()
+	if park {
+		p.entered <- struct{}{}
+		<-p.release
+	}
+	p.real.ServeHTTP(w, req, err)
 }
 
 var (
@@ -91,7 +125,7 @@ var (
 	interned = map[string]*ratelimit.RateSet{}
 )
 
-func newLimiter(rates string, capacity int) (*ratelimit.TokenLimiter, error) {
+func newLimiter(rates string, capacity int, opts ...ratelimit.TokenLimiterOption) (*ratelimit.TokenLimiter, error) {
 	rs, err := parseRates(rates)
 	if err != nil {
 		return nil, err
@@ -113,7 +147,8 @@ func newLimiter(rates string, capacity int) (*ratelimit.TokenLimiter, error) {
 		}
 		return ratelimit.NewRateSet(), nil
 	})
-	return ratelimit.New(okHandler, extractor, rs, ratelimit.Capacity(capacity), ratelimit.ExtractRates(extractRates))
+	opts = append(opts, ratelimit.Capacity(capacity), ratelimit.ExtractRates(extractRates))
+	return ratelimit.New(okHandler, extractor, rs, opts...)
 }
 
 func serve(tl http.Handler, src, amount, rates string) (string, int64) {
@@ -125,6 +160,20 @@ func serve(tl http.Handler, src, amount, rates string) (string, int64) {
 	}
 	w := httptest.NewRecorder()
 	tl.ServeHTTP(w, req)
+	return respOf(w)
+}
+
+func newReq(src, amount, rates string) *http.Request {
+	req := httptest.NewRequest(http.MethodGet, "http://h/", nil)
+	req.Header.Set("X-Src", src)
+	req.Header.Set("X-Amount", amount)
+	if rates != "" {
+		req.Header.Set("X-Rates", rates)
+	}
+	return req
+}
+
+func respOf(w *httptest.ResponseRecorder) (string, int64) {
 	switch w.Code {
 	case http.StatusTooManyRequests:
 		d, err := time.ParseDuration(w.Header().Get("X-Retry-In"))
@@ -139,6 +188,31 @@ func serve(tl http.Handler, src, amount, rates string) (string, int64) {
 
 func (s *rateH) doReq(t int64, src, amount, rates, evict, suffix string) string {
 	hx.AdvanceTo(t)
+	s.pk.mu.Lock()
+	armed := s.pk.armed
+	s.pk.mu.Unlock()
+	if armed && s.solo == nil {
+		// the refusal (if any) parks inside the error handler: run the request on its own goroutine
+		p := &parkedReq{w: httptest.NewRecorder(), done: make(chan struct{}),
+			l: last{t: hx.NowNs(), src: src, amount: amount, rates: rates}}
+		req := newReq(src, amount, rates)
+		go func() {
+			defer close(p.done)
+			s.tl.ServeHTTP(p.w, req)
+		}()
+		select {
+		case <-s.pk.entered:
+			s.parked = p
+			return "parked"
+		case <-p.done:
+			out, delay := respOf(p.w)
+			if strings.HasPrefix(out, "429") {
+				p.l.delay = delay
+				s.last = &p.l
+			}
+			return out + suffix
+		}
+	}
 	out, delay := serve(s.tl, src, amount, rates)
 	if strings.HasPrefix(out, "429") {
 		s.last = &last{t: hx.NowNs(), src: src, amount: amount, rates: rates, delay: delay}
@@ -174,7 +248,10 @@ func (s *rateH) Op(f []string) string {
 		evict, _ := hx.KV(f, "evict")
 		return s.doReq(hx.Atoi64(f[1]), f[3], f[4], rates, evict, "")
 	case len(f) >= 7 && f[0] == "at" && f[2] == "preq":
-		if s.solo != nil {
+		s.pk.mu.Lock()
+		armed := s.pk.armed
+		s.pk.mu.Unlock()
+		if s.solo != nil || armed {
 			return "bad-op"
 		}
 		rates, _ := hx.KV(f, "rates")
@@ -193,6 +270,28 @@ func (s *rateH) Op(f []string) string {
 		}
 		hx.AdvanceTo(hx.Atoi64(f[1]))
 		return s.flood(f[3], f[4], rates, n, g)
+	case len(f) == 1 && f[0] == "park-reject":
+		if s.solo != nil || s.parked != nil {
+			return "bad-op"
+		}
+		s.pk.mu.Lock()
+		s.pk.armed = true
+		s.pk.mu.Unlock()
+		return "ok"
+	case len(f) == 1 && f[0] == "unpark":
+		if s.parked == nil {
+			return "noparked"
+		}
+		p := s.parked
+		s.parked = nil
+		s.pk.release <- struct{}{}
+		<-p.done
+		out, delay := respOf(p.w)
+		if strings.HasPrefix(out, "429") {
+			p.l.delay = delay
+			s.last = &p.l
+		}
+		return out
 	case f[0] == "retry":
 		if s.last == nil {
 			return "noretry"
@@ -272,7 +371,13 @@ func (s *rateH) flood(src, amount, rates string, n, g int) string {
 	return out
 }
 
-func (s *rateH) Close() {}
+func (s *rateH) Close() {
+	if s.parked != nil {
+		s.pk.release <- struct{}{}
+		<-s.parked.done
+		s.parked = nil
+	}
+}
 
 // ---------------------------------------------------------------- TokenBucketSet
 
@@ -450,11 +555,12 @@ func main() {
 				return nil, "bad-cfg"
 			}
 			capacity := hx.KVInt(cfg, "cap", 0)
-			tl, err := newLimiter(cfg[2], capacity)
+			pk := &parker{entered: make(chan struct{}), release: make(chan struct{})}
+			tl, err := newLimiter(cfg[2], capacity, ratelimit.ErrorHandler(pk))
 			if err != nil {
 				return nil, "err badrate"
 			}
-			h := &rateH{cfgRates: cfg[2], cap: capacity, tl: tl}
+			h := &rateH{cfgRates: cfg[2], cap: capacity, tl: tl, pk: pk}
 			if hx.KVInt(cfg, "solo", 0) == 1 {
 				h.solo = map[string]*ratelimit.TokenLimiter{}
 			}
